@@ -518,6 +518,11 @@ func (c *Compiler) compileDefine(
 	if !allowRedefine && exists && ident != "_" {
 		return c.errorf(node, "%q redeclared in this block", ident)
 	}
+	// only a local variable can be defined again (destructuring); a global or a
+	// captured variable of the same name has no local slot.
+	if exists && symbol.Scope != ScopeLocal && symbol.Scope != ScopeConstLit {
+		return c.errorf(node, "%q redeclared in this block", ident)
+	}
 
 	if symbol.Constant {
 		return c.errorf(node, "assignment to constant variable %q", ident)
